@@ -270,9 +270,10 @@ theorem stepSound_misc : StepSound Op.isMisc := by
   intro c g p t op hsel _ hinv
   cases op with
   | restale addr fam =>
-    exact ⟨_, _, rfl, restaleGen_sound addr fam false (.restale addr fam) (fun _ => rfl) (fun _ => rfl) hinv⟩
+    exact ⟨_, _, rfl, restaleGen_sound addr fam false (.restale addr fam) (fun _ => rfl) (fun _ => rfl) (fun _ => rfl) hinv⟩
   | restaleLlgr addr fam =>
-    exact ⟨_, _, rfl, restaleGen_sound addr fam true (.restaleLlgr addr fam) (fun _ => rfl) (fun _ => rfl) hinv⟩
+    exact ⟨_, _, rfl, restaleGen_sound addr fam true (.restaleLlgr addr fam) (fun _ => rfl) (fun _ => rfl)
+      (fun h => absurd h (by simp [Op.isRestaleLlgr])) hinv⟩
   | nhValidity nh reachable => exact ⟨_, _, rfl, nhValidity_sound nh reachable hinv⟩
   | startDeferral fam => exact ⟨_, _, rfl, startDeferral_sound fam hinv⟩
   | endDeferral fam => exact ⟨_, _, rfl, endDeferral_sound fam hinv⟩
